@@ -311,11 +311,13 @@ fn c07_theship() {
 fn battalion(group: u8) {
     let addr = any_addr_v4();
     let (players, max): (u8, u8) = (kani::any(), kani::any());
+    let vis: u8 = kani::any(); // visibility byte of the info reply
+    kani::assume(vis <= 1);
     let game_id: u64 = 489_940;
     let mut e = Enc::new();
     e.le32(0xFFFF_FFFF).u8(0x49).u8(17);
     e.cstr("Nm").cstr("M").cstr("bat").cstr("G");
-    e.le16(0).u8(players).u8(max).u8(0).u8(b'd').u8(b'l').u8(0).u8(0);
+    e.le16(0).u8(players).u8(max).u8(0).u8(b'd').u8(b'l').u8(vis).u8(0);
     e.cstr("1.0").u8(0x01).le64(game_id);
     world().push_data(e.v);
     let mut p = Enc::new();
@@ -336,6 +338,10 @@ fn battalion(group: u8) {
             ru.le16(3);
             ru.cstr("bat_gamemode_s").cstr("BG").cstr("bat_map_s").cstr("bm").cstr("other").cstr("o");
         }
+        4 => {
+            ru.le16(2);
+            ru.cstr("bat_has_password_s").cstr("N").cstr("other").cstr("o");
+        }
         _ => {
             ru.le16(1);
             ru.cstr("other").cstr("o");
@@ -351,7 +357,12 @@ fn battalion(group: u8) {
             } else {
                 assert!(x.players_maximum == max && x.players_online == players);
             }
-            assert!(x.has_password == (group == 2));
+            // the rule overrides the info reply's visibility byte in both directions
+            assert!(x.has_password == match group {
+                2 => true,
+                4 => false,
+                _ => vis == 1,
+            });
             assert!(x.name == if group == 2 { "BN" } else { "Nm" });
             assert!(x.game == if group == 3 { "BG" } else { "G" });
             // only the untouched rule is left
@@ -381,6 +392,7 @@ c07_battalion!(c07_battalion1944_plain, 0);
 c07_battalion!(c07_battalion1944_counts, 1);
 c07_battalion!(c07_t_battalion1944_password_name, 2);
 c07_battalion!(c07_t_battalion1944_gamemode_map, 3);
+c07_battalion!(c07_battalion1944_password_rule_says_no, 4);
 
 /// Stub for `RandomState::new` (std HashMap of eco/types.rs): fixed keys
 /// instead of the getrandom FFI call; the map stays empty in the harness.
